@@ -749,6 +749,7 @@ func (c *ExecCtx) havocCall(st *State, fn *types.Func, recv *Val, args []Val, si
 	}
 	u.eng.abstracted["havoc:"+name] = true
 	c.havocHeaps(st, fn, recv, args)
+	c.growAlloc(st)
 	return c.freshResults(st, sig, fn, false)
 }
 
@@ -1216,24 +1217,18 @@ func (c *ExecCtx) applyContract(st *State, fs *FuncSpec, fn *types.Func, recv *V
 			c.havocHeaps(st, nil, recv, args)
 		}
 	}
-	if results == nil && sig != nil {
-		results = c.freshResults(st, sig, fn, false)
-	}
-	// the callee may have allocated: allocation set grows, results are allocated
-	if fn != nil && inModule(fn.Pkg()) && !fs.Pure {
+	// the callee may have allocated: the allocation set grows BEFORE results
+	// are introduced, so that "result is allocated" refers to the post-state
+	// (a result may be a fresh object: fresh(result) in ensures)
+	if !fs.Func {
 		al := u.heapGet(st, "$alloc", ArraySort(SInt, SBool))
 		na := u.fresh("alloc", al.Sort)
 		x := Sym("x!a", SInt)
 		st.assumeT(Forall([]*Term{x}, Imp(Select(al, x), Select(na, x)), []*Term{Select(na, x)}))
 		u.heapSet(st, "$alloc", na)
-		for _, r := range results {
-			if r.T.Sort == SInt {
-				switch unalias(r.Ty).Underlying().(type) {
-				case *types.Pointer, *types.Map, *types.Chan:
-					st.assumeT(Or(Eq(r.T, IntLit(0)), Select(na, r.T)))
-				}
-			}
-		}
+	}
+	if results == nil && sig != nil {
+		results = c.freshResults(st, sig, fn, false)
 	}
 	// bind results
 	env.bindResults(results)
@@ -1274,7 +1269,63 @@ func (c *ExecCtx) funcApp(fn *types.Func, recv *Val, args []Val, rt types.Type) 
 		return d.Const(name, rs)
 	}
 	d.Fun(name, sorts, rs)
+	c.installFuncAxioms(fn, name, recv, args, rt)
 	return App(name, rs, ts...)
+}
+
+// installFuncAxioms turns the ensures clauses of a `function` contract into a
+// universally quantified axiom about the uninterpreted function, so that the
+// facts are available wherever the function is mentioned (also in specs).
+func (c *ExecCtx) installFuncAxioms(fn *types.Func, name string, recv *Val, args []Val, rt types.Type) {
+	e := c.u.eng
+	if e.funcAxiomDone == nil {
+		e.funcAxiomDone = map[string]bool{}
+	}
+	if e.funcAxiomDone[name] {
+		return
+	}
+	e.funcAxiomDone[name] = true
+	fs := e.specs.Funcs[funcKey(fn)]
+	if fs == nil || !fs.Func || len(fs.Ensures) == 0 {
+		return
+	}
+	u := c.u
+	var qv []*Term
+	var ts []*Term
+	var recvQ *Val
+	mk := func(v Val, nm string) Val {
+		e.nsym++
+		q := Sym(fmt.Sprintf("%s!fa%d", nm, e.nsym), v.T.Sort)
+		qv = append(qv, q)
+		ts = append(ts, q)
+		return Val{q, v.Ty}
+	}
+	if recv != nil {
+		r := mk(*recv, "recv")
+		recvQ = &r
+	}
+	var argQ []Val
+	for i, a := range args {
+		argQ = append(argQ, mk(a, fmt.Sprintf("a%d", i)))
+	}
+	rs := c.sortOfType(rt)
+	app := App(name, rs, ts...)
+	binds := c.bindHeader(fs, recvQ, argQ)
+	env := &SpecEnv{c: c, fs: fs, binds: binds, fnObj: fn}
+	env.bindResults([]Val{{app, rt}})
+	scratch := newState()
+	u.quiet++
+	var ens []*Term
+	for _, cl := range fs.Ensures {
+		ens = append(ens, env.evalBool(scratch, scratch, cl.Expr, cl.Where))
+	}
+	u.quiet--
+	body := And(ens...)
+	if len(scratch.assume) > 0 {
+		body = Imp(And(scratch.assume...), body)
+	}
+	e.d.AddAxiom("fnax_"+name, Forall(qv, body, []*Term{app}))
+	e.axiomNames = append(e.axiomNames, "function contract as axiom: "+shortKey(funcKey(fn)))
 }
 
 // bindHeader binds the contract header's names positionally.
@@ -1722,4 +1773,18 @@ func mentionsGhostVar(fs *FuncSpec, e ast.Expr) bool {
 		return !found
 	})
 	return found
+}
+
+
+// growAlloc: an unknown callee may have allocated objects.
+func (c *ExecCtx) growAlloc(st *State) {
+	u := c.u
+	al := u.heapGet(st, "$alloc", ArraySort(SInt, SBool))
+	if al.Op == "sym" && strings.HasPrefix(al.Name, "alloc@") && len(st.assume) > 0 {
+		// already a grown set not yet used for an allocation: fine to reuse
+	}
+	na := u.fresh("alloc", al.Sort)
+	x := Sym("x!a", SInt)
+	st.assumeT(Forall([]*Term{x}, Imp(Select(al, x), Select(na, x)), []*Term{Select(na, x)}))
+	u.heapSet(st, "$alloc", na)
 }
